@@ -60,7 +60,27 @@ CLAIMED['C18'] = (
     'Structural invariants of PRM: the milestone push is confined to and post-dominates the accept edge of the validity query on the sample; each forward edge has exactly one mirror edge recorded under the same conditions for the same index, written from the node just pushed, indices come from a 0..len scan made before the push; roadmap links are radius- and motion-guarded (C05.radius, C03.link re-run); a non-empty roadmap makes construct_roadmap return Ok(()) without writes; the query uses a FIFO, marks and records the parent at enqueue (parent = dequeued node, roots None), enqueues unvisited neighbours of the dequeued node and tests the goal on the dequeued index; replacing the problem writes only the problem definition. Completeness / hop-minimality follow by the textbook BFS argument from these premises.',
     'Trusted: rustc MIR, mirfacts; textbook BFS theorem; fields private (compile-fail witness in thorough tier).',
     'DESIGN.md section 4, C18')
-NOT_BUILT = ['C06', 'C08', 'C13', 'C19']
+CLAIMED['C06'] = (
+    'natural-loop classification over the interprocedural reach set + deadline-test shape and polarity + positivity of the step-count divisor',
+    'No loop reachable from the planner API (trait calls resolved to every in-workspace impl) can run without an iterator bound over a finite std iterator or a deadline test on every cycle; parent walks are exempt by C15.walk/C15.acyclic/C18.bfs. Each deadline test compares elapsed() of an Instant created earlier in the same call, unmodified, with the timeout parameter/field, leaves the loop when elapsed is greater and ends in Err(Timeout) (Ok(()) for roadmap construction). Every value stored into a resolution field is a positive constant, a copy of the same field, or a parameter under a dominating > 0 fact, so the motion-check step count has a non-zero divisor. The roadmap query returns NoSolutionFound when nothing attaches or the search is exhausted. Wall-clock figures and callback cost are not decided; "never a path on an infeasible world" is C01+C03.',
+    'Trusted: rustc MIR, mirfacts; user callbacks terminate; finite std iterators terminate; compound weights positive. One recorded finding: the SO3 rejection-sampling loop.',
+    'DESIGN.md section 4, C06')
+CLAIMED['C08'] = (
+    'error-gate must-pass-through + Option-field typestate + exhaustive may-panic site enumeration with discharge classes over MIR',
+    'Every non-setup entry point obtains problem_def / validity_checker through ok_or(PlannerUninitialised)?; the roadmap query answers UnsampledStateSpace on an empty roadmap before indexing it; the Option fields are set to Some only by setup / problem replacement and never cleared or moved out; every may-panic site (unwrap/expect, panic!/assert!, MIR Assert terminators, Index/IndexMut, library calls with documented panicking preconditions) in the 91 functions reachable from the planner API is enumerated and discharged by a local guard, a checked invariant of another rule (C02.reroot, C15.range/noremove, C18.bfs, C11.range, C12.count) or the reviewed malformed-input table; all other sites are violations keyed (function, callee, ordinal). The start gate is C01.gate and most-recent-problem is C02.reroot. 16 recorded findings: sampler unwraps, start_states[0] on an empty list, random_bool(goal_bias).',
+    'Trusted: rustc MIR, mirfacts; std/rand panic only under documented preconditions; usize counters cannot overflow; shape-mismatched states are malformed input.',
+    'DESIGN.md section 4, C08')
+CLAIMED['C13'] = (
+    'sibling-agreement table over trait impls + induction-variable alignment + dependence/shape recognition over MIR',
+    'Delegation fidelity of the compound stack: each of the 6 StateSpace methods of CompoundStateSpace calls exactly the matching *_dyn, each blanket *_dyn calls exactly the matching StateSpace method on self with its parameters in order, each SE2/SE3 method forwards to self.0 with state.0 arguments in order (24 forwarders); inside every compound method subspaces[i], components[i] of every state argument and weights[i] use the same induction variable of a loop over 0..subspaces.len() with no early exit other than false / ?; distance and resolution are sqrt of a zero-initialised sum of (component*weight)^2; interpolate forwards t unmodified; sample_uniform collects the components in order; SE2/SE3 build [real_vector, so2|so3] with weights [1.0, weight] in the order of their state constructors.',
+    'Trusted: rustc MIR, mirfacts; powi/sqrt semantics. The algebra is checked as shape/dependence, not as arithmetic.',
+    'DESIGN.md section 4, C13')
+CLAIMED['C19'] = (
+    'binding-to-core call-site agreement (parameter-name oracle), variant exhaustiveness, effect whitelist over oxmpl-py MIR',
+    'Delegation fidelity of oxmpl-py: at each of the 65 binding->core call sites same-typed scalar arguments are passed in the core parameter order (decided by name agreement between binding and core parameter names) and unmodified; every planner wrapper reaches the core for all 6 variants in new / setup / solve (/ construct_roadmap) and the four wrappers agree in shape; the 31 state / path / problem-definition conversions contain no float operation and no re-canonicalisation; the 5 fallible space constructors map their error to ValueError and never unwrap; PlannerConfig(seed) reaches the core unmodified. Outputs of two runs are not compared.',
+    'Trusted: rustc MIR, mirfacts; pyo3 extraction passes numbers unchanged; core parameter names are meaningful.',
+    'DESIGN.md section 4, C19')
+NOT_BUILT = []
 for p in NOT_BUILT:
     if p not in CLAIMED:
         NOT_APPLICABLE[p] = 'not built yet (static rule designed in DESIGN.md section 4; moved to claimed when its check exists)'
